@@ -533,7 +533,9 @@ def ensure_gen(ctx: Ctx):
 def run(ctx: Ctx):
     ctx.trusted += TRUSTED
     ctx.assumptions += [
-        "parameter keys are distinct; values are numbers or equal-length number vectors (no mixed levels)",
+        "parameter keys are distinct (model arguments, optionally one detector setting); values are numbers or "
+        "equal-length number vectors (no mixed levels); sweeps of observation.readout.times are C02's subject "
+        "(C02-ObsTimes: the non-dask path ignores them)",
         "each run is a function of (copy of the processor, parameter values) -- C06; checked here only through the "
         "trace counter the probe leaves on the detector it is given",
         "dask executes every chunk once and places it by index (not proved; sampled under the schedulers listed)",
@@ -622,24 +624,34 @@ def replay(ctx: Ctx, rp: dict) -> int:
 
 META = dict(
     level_text=(
-        "Coq theorems (no axioms) over an executable model of the parallel path: the parameter array built by "
-        "create_params of each mode vs. the sequential generators (product: equal as multisets, one cell per run, cell "
-        "at rank(mi) holds the values its coordinates name, for any number of parameters; custom: identical rows; "
-        "sequential mode and two corner cases REFUTED with witnesses, strongest restrictions proved), assembly "
-        "independent of EVERY completion order (slots distinct, runs pure), the file index a bijection for any shape, "
-        "island k created from seed k under any completion order, DaskBFE chunking, and an interleaving model of "
-        "save/seed/draw/restore on one shared generator (a 2-thread schedule that changes both draws and leaks the "
-        "seed; one worker or one generator per worker always equals the sequential outcome). That the implementation "
-        "behaves like the model is established by correspondence (testing): the same observation run with_dask=False "
-        "and True under synchronous / 1,2,4,16 threads / 2 processes with data-dependent delays, every result entry "
-        "(label, arguments decoded from the data, trace counter), output files vs. index, island seeds, DaskBFE values "
-        "compared inside Coq against the model and against the specification."),
+        "Coq theorems (no axioms) over an executable model of the parallel path whose rows are REGENERATED from the "
+        "source on every run (translator/c07.py -> src_cfg: which rows create_params of the three modes builds, how the "
+        "dask path binds a cell's values to the parameter keys, file index / island order / DaskBFE shapes; fail closed). "
+        "Proved for all inputs: END TO END (C07_parallel_equals_sequential, instantiated with the regenerated rows as "
+        "C07_parallel_equals_sequential_as_coded): for product / sequential / custom mode, any parameter space (repeated "
+        "values, one-element lists, any lengths and defaults), any distinct keys, any run function of the received values "
+        "and EVERY completion order of the tasks, the parallel result and the sequential result are the same label->data "
+        "map; per mode: product cells = sequential runs as a set, no double cell, #cells = prod shape, a permutation when "
+        "no list repeats a value, cell at rank(mi) holds the values its coordinates name; sequential mode: identical run "
+        "list, one parameter at a time with defaults; custom: identical rows; positional binding is right iff the zipped "
+        "mapping iterates in the tuples' order (soundness + necessity); assembly independent of every completion order, "
+        "rank/unrank bijective for any shape, island k created from seed k, DaskBFE chunking; interleaving model of "
+        "save/seed/draw/restore on one shared generator (threads: REFUTED with a witness schedule, open finding; one "
+        "worker or one generator per worker: always the sequential outcome). That the implementation behaves like the "
+        "model is established by correspondence (testing): the same observation run with_dask=False and True under "
+        "synchronous / 1,2,4,16 threads / 2 processes with data-dependent delays, parameter sets whose short names "
+        "collide in every position pattern of 1..4 parameters, every result entry (label, values each run RECEIVED per "
+        "parameter, trace counter, executions counted), output files vs. index, islands (seeds, first fitness, champions "
+        "after an evolution vs. an in-thread reference evolution), DaskBFE values -- compared inside Coq against the "
+        "model and against the specification."),
     level_note=(
-        "Trusted: Coq kernel + vm_compute; the correspondence harness and probes; pandas/xarray/dask/pygmo/"
-        "ThreadPoolExecutor behaviour as modelled (dask computes every chunk once and places it by index: sampled, "
-        "not proved); runs are functions of their own copy (C06). The shared-generator defect is a theorem about the "
-        "model and is exhibited on the real code only by a forced schedule."),
-    technique="Coq proof over executable model (permutation invariance, mixed radix, interleaving semantics) + in-Coq "
-              "correspondence/spec evaluation of sequential vs. parallel runs under several dask schedulers",
+        "Trusted: Coq kernel + vm_compute; translator/c07.py (what it extracts is believed; it fails closed); the "
+        "correspondence harness and probes; pandas/xarray/dask/pygmo/ThreadPoolExecutor behaviour as modelled (dask "
+        "computes every chunk once and places it by index: a hypothesis of the theorems, sampled incl. an execution "
+        "counter, not proved); runs are functions of their own copy (C06). The shared-generator defect is a theorem "
+        "about the model and is exhibited on the real code only by a forced schedule."),
+    technique="Coq proof over executable model regenerated in part from the source (permutation invariance, mixed "
+              "radix, positional binding, interleaving semantics) + in-Coq correspondence/spec evaluation of sequential "
+              "vs. parallel runs under several dask schedulers",
     design_ref="DESIGN.md section 6, C07",
 )
